@@ -191,6 +191,12 @@ impl Language for Go {
     fn write_type_alias(&mut self, w: &mut dyn Write, ty: &RustTypeAlias) -> std::io::Result<()> {
         write_comments(w, 0, &ty.comments)?;
 
+        // The names the target refers to are defined with their acronyms upper-cased.
+        let target = self
+            .format_type(&ty.r#type, ty.generic_types.as_slice())
+            .map_err(|e| std::io::Error::new(std::io::ErrorKind::Other, e))?;
+        let target = self.acronyms_to_uppercase(&target);
+
         writeln!(
             w,
             "type {}{} {}\n",
@@ -205,8 +211,7 @@ impl Language for Go {
                         .join(", ")
                 ))
                 .unwrap_or_default(),
-            self.format_type(&ty.r#type, ty.generic_types.as_slice())
-                .map_err(|e| std::io::Error::new(std::io::ErrorKind::Other, e))?
+            target
         )?;
 
         Ok(())
